@@ -1,9 +1,11 @@
 (* C09 -- correspondence driver: a case is a program of ops plus what the implementation showed after every op
    (the descriptions that changed, delta encoded) and the identity pattern of its Parameter / datatype objects at
-   the end; check_case re-runs the model and compares the complete snapshot after every op. *)
+   the end; check_case re-runs the model and compares the complete snapshot after every op.  The program is carried
+   twice, op by op: for the parameter component (Model.v: c_ops ...) and for the command / mixin component
+   (CmdModel.v: c_xops ...); check_case = check_params && check_cmds. *)
 From Coq Require Import List Arith ZArith Bool.
 Import ListNotations.
-Require Import FV.Base.Util FV.Gen.C09 FV.C09.Model.
+Require Import FV.Base.Util FV.Gen.C09 FV.C09.Model FV.C09.CmdModel.
 
 Definition oz_eqb := opt_eqb Z.eqb.
 Definition dt_eqb (a b : dt) : bool :=
@@ -87,11 +89,59 @@ Fixpoint canon (seen : list nat) (l : list (option nat)) : list nat :=
                    end
   end.
 
+(* ---------- command / mixin component *)
+Definition lim_eqb (a b : option Z * option Z) : bool := oz_eqb (fst a) (fst b) && oz_eqb (snd a) (snd b).
+Definition cdt_eqb (a b : cdt) : bool :=
+  Nat.eqb (ck a) (ck b) && oz_eqb (clo a) (clo b) && oz_eqb (chi a) (chi b)
+  && list_eqb (pair_eqb Z.eqb lim_eqb) (cmem a) (cmem b) && list_eqb Z.eqb (copt a) (copt b).
+Definition cmd_eqb (a b : cmd_desc) : bool :=
+  oz_eqb (cd_desc a) (cd_desc b) && opt_eqb cdt_eqb (cd_arg a) (cd_arg b) && opt_eqb cdt_eqb (cd_res a) (cd_res b).
+Definition xdesc := (list (name * cmd_desc) * list Z)%type.
+Definition xdesc_eqb (a b : xdesc) : bool :=
+  list_eqb (pair_eqb Nat.eqb cmd_eqb) (fst a) (fst b) && list_eqb Z.eqb (snd a) (snd b).
+Definition xsnapshot := list (ent * xdesc).
+
+Fixpoint xsnap_get (e : ent) (l : xsnapshot) : option xdesc :=
+  match l with [] => None | (e', d) :: r => if ent_eqb e e' then Some d else xsnap_get e r end.
+Fixpoint xsnap_set (e : ent) (d : xdesc) (l : xsnapshot) : xsnapshot :=
+  match l with
+  | [] => [(e, d)]
+  | (e', d') :: r => if ent_eqb e e' then (e, d) :: r else (e', d') :: xsnap_set e d r
+  end.
+
+(* commands of every module class (+ what the class attribute inputCallbacks holds) and of every living instance
+   (+ the inputs registered on it) *)
+Definition model_xsnapshot (s : xstate) : xsnapshot :=
+  flat_map (fun ic => if xc_module (snd ic) then [(EClass (fst ic), (xdescribe_class s (snd ic), xcls_inputs s))] else [])
+           (indexed 0 (xclasses s))
+  ++ flat_map (fun ii => if xi_alive (snd ii) then [(EInst (fst ii), xdescribe_inst s (snd ii))] else [])
+              (indexed 0 (xinsts s)).
+
+Definition xsnap_eqb (m o : xsnapshot) : bool :=
+  Nat.eqb (length m) (length o)
+  && forallb (fun ed => match xsnap_get (fst ed) o with Some d => xdesc_eqb (snd ed) d | None => false end) m.
+
+(* identity pattern: Command objects even keys, datatype objects odd keys *)
+Definition okey (o : option id) : option nat := option_map (fun j => 2 * j + 1) o.
+Definition xclass_keys (s : xstate) (c : xcls) : list (option nat) :=
+  flat_map (fun ki => let cell := getc (xcells s) (snd ki) in
+                      [Some (2 * snd ki); okey (opt_join (q_arg (cv cell))); okey (opt_join (q_res (cv cell)));
+                       okey (opt_join (q_arg (cown cell))); okey (opt_join (q_res (cown cell)))]) (xc_acc c).
+Definition xinst_keys (x : xinst) : list (option nat) :=
+  flat_map (fun kc => [okey (ic_arg (snd kc)); okey (ic_res (snd kc))]) (xi_cmds x).
+Definition model_xkeys (s : xstate) : list (option nat) :=
+  flat_map (fun c => if xc_module c then xclass_keys s c else []) (xclasses s)
+  ++ flat_map (fun x => if xi_alive x then xinst_keys x else []) (xinsts s).
+
 Record case := {
   c_ops : list op;
   c_ok : list bool;                    (* the op was carried out by the implementation (instantiation accepted) *)
   c_deltas : list snapshot;            (* descriptions that differ from those before the op *)
   c_ids : list nat;                    (* identity pattern after the last op *)
+  (* the command / mixin component (CmdModel.v) of the same program, op by op *)
+  c_xops : list xop;
+  c_xdeltas : list xsnapshot;          (* command descriptions + registered inputs of the same entities *)
+  c_xids : list nat;                   (* identity pattern of Command objects and argument / result datatype objects *)
 }.
 
 (* the hypothesis acc_ok of the frame theorems, checked in every state the correspondence visits: every accessible
@@ -118,11 +168,39 @@ Fixpoint run_check (s : state) (seen : snapshot) (ops : list op) (oks : list boo
   | _, _, _ => None
   end.
 
-Definition check_case (c : case) : bool :=
+(* an accepted instantiation must be acceptable for the command component too *)
+Definition xop_ok (s : xstate) (o : xop) : bool :=
+  match o with
+  | XInst ci true cfg => xacceptable s ci cfg
+  | _ => true
+  end.
+
+Fixpoint xrun_check (s : xstate) (seen : xsnapshot) (ops : list xop) (ds : list xsnapshot) : option xstate :=
+  match ops, ds with
+  | [], [] => Some s
+  | o :: ops', d :: ds' =>
+      let s' := xstep s o in
+      let seen' := fold_left (fun acc ed => xsnap_set (fst ed) (snd ed) acc) d seen in
+      if xop_ok s o && xsnap_eqb (model_xsnapshot s') seen' then xrun_check s' seen' ops' ds' else None
+  | _, _ => None
+  end.
+
+Definition check_params (c : case) : bool :=
   match run_check state0 [] (c_ops c) (c_ok c) (c_deltas c) with
   | Some s => list_eqb Nat.eqb (canon [] (model_keys s)) (c_ids c)
   | None => false
   end.
 
+Definition check_cmds (c : case) : bool :=
+  Nat.eqb (length (c_xops c)) (length (c_ops c)) &&
+  match xrun_check xstate0 [] (c_xops c) (c_xdeltas c) with
+  | Some s => list_eqb Nat.eqb (canon [] (model_xkeys s)) (c_xids c)
+  | None => false
+  end.
+
+Definition check_case (c : case) : bool := check_params c && check_cmds c.
+
 (* for diagnosis in replay files *)
-Definition model_result (c : case) := (model_snapshot (run (c_ops c)), canon [] (model_keys (run (c_ops c)))).
+Definition model_result (c : case) :=
+  (model_snapshot (run (c_ops c)), canon [] (model_keys (run (c_ops c))),
+   (check_params c, check_cmds c, model_xsnapshot (xrun (c_xops c)), canon [] (model_xkeys (xrun (c_xops c))))).
